@@ -102,7 +102,7 @@ func c18ExtractValue(body []byte) (string, bool) {
 }
 
 func TestVerif_C18(t *testing.T) {
-	res := newVerifResult("16 canary payloads (quotes, angle brackets, entities, NUL, overlong UTF-8, backticks, comment/CDATA closers, javascript:) placed in every form/query field, the path suffix and the Referer/User-Agent of every route of the regenerated service mux, with no credential / user session / admin+U2F session, GET and POST, Accept: text/html; every text/html response tokenised with golang.org/x/net/html; plus destinations through the login-failure, 2FA and OpenID-authorize login pages compared byte for byte with the model of the hidden INPUT; non-trivial = response is HTML and echoes part of the payload; distinct by (route, mode, credential, payload, problems)")
+	res := newVerifResult("16 canary payloads (quotes, angle brackets, entities, NUL, overlong UTF-8, backticks, comment/CDATA closers, javascript:) placed in every form/query field, the path suffix and the Referer/User-Agent of every route of the regenerated service mux, with no credential / user sessions (password, password+U2F) / admin sessions (password only, +TOTP, +U2F), GET and POST, Accept: text/html; every text/html response tokenised with golang.org/x/net/html; plus destinations through the login-failure, 2FA and OpenID-authorize login pages compared byte for byte with the model of the hidden INPUT; non-trivial = response is HTML and echoes part of the payload; distinct by (route, mode, credential, payload, problems)")
 	env := verifSetup(t, func(c *AppConfigFile, dir string) {
 		c.Base.AllowedAuthBackendsForWebUI = []string{"U2F", "TOTP"}
 		c.Base.AllowedAuthBackendsForCerts = []string{"U2F"}
@@ -119,7 +119,8 @@ func TestVerif_C18(t *testing.T) {
 	creds := []struct {
 		name   string
 		cookie *http.Cookie
-	}{{"none", nil}, {"user", env.cookie("alice", AuthTypePassword|AuthTypeU2F)}, {"admin", env.cookie("admin", AuthTypePassword|AuthTypeU2F)}, {"pwonly", env.cookie("alice", AuthTypePassword)}}
+	}{{"none", nil}, {"user", env.cookie("alice", AuthTypePassword|AuthTypeU2F)}, {"admin", env.cookie("admin", AuthTypePassword|AuthTypeU2F)}, {"pwonly", env.cookie("alice", AuthTypePassword)},
+		{"adminpw", env.cookie("admin", AuthTypePassword)}, {"admintotp", env.cookie("admin", AuthTypePassword|AuthTypeTOTP)}}
 	// stored data that later shows up in pages: users whose names are payloads
 	for _, p := range c18Payloads()[:4] {
 		f := url.Values{}
